@@ -25,13 +25,20 @@ const (
 	vFunc // function or method value
 	vNil
 	vObj // the tracked object itself (e.g. the *Parser)
+	vArr    // array or slice value with known elements (constant tables)
+	vStruct // struct value with known fields (rows of constant tables)
+	vLit    // function literal (closure) bound to the environment it was created in
 )
 
 type val struct {
-	k  vkind
-	i  int64
-	b  bool
-	fn *types.Func
+	k   vkind
+	i   int64
+	b   bool
+	fn  *types.Func
+	arr []val          // vArr
+	fld map[string]val // vStruct
+	lit *ast.FuncLit   // vLit
+	env map[types.Object]val
 }
 
 func (v val) String() string {
@@ -46,6 +53,12 @@ func (v val) String() string {
 		return "nil"
 	case vObj:
 		return "<obj>"
+	case vArr:
+		return fmt.Sprintf("<table of %d>", len(v.arr))
+	case vStruct:
+		return "<row>"
+	case vLit:
+		return "<closure>"
 	}
 	return "?"
 }
@@ -74,7 +87,22 @@ type frame struct {
 	defers []func()
 	ret    []val
 	done   bool
+	// pending break/continue (brNone when none); label "" = the innermost breakable statement
+	br      int
+	brLabel string
 }
+
+const (
+	brNone = iota
+	brBreak
+	brContinue
+)
+
+// stopped: control has left the current statement list (return, break or continue under way)
+func (fr *frame) stopped() bool { return fr.done || fr.br != brNone }
+
+// interpLoopBudget bounds the iterations of one interpreted loop (tables are small)
+const interpLoopBudget = 1 << 16
 
 func (m *Machine) problem(format string, a ...any) {
 	m.problems = append(m.problems, fmt.Sprintf(format, a...))
@@ -142,15 +170,86 @@ func (m *Machine) callDecl(fd *ast.FuncDecl, args []val) []val {
 
 func (m *Machine) block(fr *frame, list []ast.Stmt) {
 	for _, s := range list {
-		if fr.done {
+		if fr.stopped() {
 			return
 		}
 		m.stmt(fr, s)
 	}
 }
 
-func (m *Machine) stmt(fr *frame, s ast.Stmt) {
+func (m *Machine) stmt(fr *frame, s ast.Stmt) { m.stmtL(fr, s, "") }
+
+// absorbBreak: a pending break that targets the statement just executed (unlabelled, or its own label) ends here
+func (fr *frame) absorbBreak(label string) {
+	if fr.br == brBreak && (fr.brLabel == "" || (label != "" && fr.brLabel == label)) {
+		fr.br, fr.brLabel = brNone, ""
+	}
+}
+
+// loopControl is called after one execution of a loop body; it reports whether the loop must stop
+func (fr *frame) loopControl(label string) (stop bool) {
+	if fr.done {
+		return true
+	}
+	switch fr.br {
+	case brBreak:
+		if fr.brLabel == "" || (label != "" && fr.brLabel == label) {
+			fr.br, fr.brLabel = brNone, ""
+		}
+		return true
+	case brContinue:
+		if fr.brLabel == "" || (label != "" && fr.brLabel == label) {
+			fr.br, fr.brLabel = brNone, ""
+			return false
+		}
+		return true // continue of an outer loop
+	}
+	return false
+}
+
+// stmtL executes s; label is the label attached to s ("" if none)
+func (m *Machine) stmtL(fr *frame, s ast.Stmt, label string) {
 	switch s := s.(type) {
+	case *ast.LabeledStmt:
+		m.stmtL(fr, s.Stmt, s.Label.Name)
+		// a labelled break out of a plain block / if statement
+		if fr.br == brBreak && fr.brLabel == s.Label.Name {
+			fr.br, fr.brLabel = brNone, ""
+		}
+	case *ast.ForStmt:
+		if s.Init != nil {
+			m.stmt(fr, s.Init)
+		}
+		for n := 0; ; n++ {
+			if n > interpLoopBudget {
+				m.problem("loop does not end within %d iterations", interpLoopBudget)
+				fr.done = true
+				return
+			}
+			if s.Cond != nil {
+				c := m.expr(fr, s.Cond)
+				if c.k != vBool {
+					if n == 0 && m.inert(fr, s.Body) && (s.Post == nil || m.inert(fr, s.Post)) {
+						return
+					}
+					m.problem("loop on unknown condition %s", types.ExprString(s.Cond))
+					fr.done = true
+					return
+				}
+				if !c.b {
+					return
+				}
+			}
+			m.block(fr, s.Body.List)
+			if fr.loopControl(label) {
+				return
+			}
+			if s.Post != nil {
+				m.stmt(fr, s.Post)
+			}
+		}
+	case *ast.RangeStmt:
+		m.rangeStmt(fr, s, label)
 	case *ast.BlockStmt:
 		m.block(fr, s.List)
 	case *ast.ExprStmt:
@@ -220,12 +319,14 @@ func (m *Machine) stmt(fr *frame, s ast.Stmt) {
 				}
 				if match {
 					m.caseBody(fr, cc)
+					fr.absorbBreak(label)
 					return
 				}
 			}
 		}
 		if def != nil {
 			m.caseBody(fr, def)
+			fr.absorbBreak(label)
 		}
 	case *ast.AssignStmt:
 		if len(s.Lhs) == 2 && len(s.Rhs) == 1 {
@@ -284,14 +385,32 @@ func (m *Machine) stmt(fr *frame, s ast.Stmt) {
 			fr.defers = append(fr.defers, func() { m.expr(fr, call) })
 		}
 	case *ast.IncDecStmt:
+		if x := m.expr(fr, s.X); x.k == vInt {
+			if s.Tok == token.INC {
+				x.i++
+			} else {
+				x.i--
+			}
+			m.assign(fr, s.X, x, s)
+			return
+		}
 		m.assign(fr, s.X, val{}, s)
 	case *ast.EmptyStmt:
 	case *ast.BranchStmt:
-		if s.Tok == token.BREAK {
-			// only meaningful inside switch case bodies: handled by caseBody
+		switch s.Tok {
+		case token.BREAK, token.CONTINUE:
+			fr.br = brBreak
+			if s.Tok == token.CONTINUE {
+				fr.br = brContinue
+			}
+			fr.brLabel = ""
+			if s.Label != nil {
+				fr.brLabel = s.Label.Name
+			}
+		default:
 			fr.done = true
 			fr.ret = []val{{k: vUnknown}}
-			m.problem("unsupported branch statement")
+			m.problem("unsupported branch statement %s", s.Tok)
 		}
 	default:
 		m.problem("unsupported statement %T", s)
@@ -301,13 +420,58 @@ func (m *Machine) stmt(fr *frame, s ast.Stmt) {
 
 func (m *Machine) caseBody(fr *frame, cc *ast.CaseClause) {
 	for _, s := range cc.Body {
-		if fr.done {
-			return
-		}
-		if br, ok := s.(*ast.BranchStmt); ok && br.Tok == token.BREAK && br.Label == nil {
+		if fr.stopped() {
 			return
 		}
 		m.stmt(fr, s)
+	}
+}
+
+// rangeStmt: `for k, v := range X` over an integer, or over an array/slice whose elements are known (or,
+// for an array, whose length is: the elements are then unknown values)
+func (m *Machine) rangeStmt(fr *frame, s *ast.RangeStmt, label string) {
+	x := m.expr(fr, s.X)
+	var elems []val
+	n := -1
+	switch x.k {
+	case vInt:
+		n = int(x.i)
+	case vArr:
+		n, elems = len(x.arr), append([]val{}, x.arr...)
+	default:
+		if t := m.info.TypeOf(s.X); t != nil {
+			u := t.Underlying()
+			if p, ok := u.(*types.Pointer); ok {
+				u = p.Elem().Underlying()
+			}
+			if a, ok := u.(*types.Array); ok {
+				n = int(a.Len())
+			}
+		}
+	}
+	if n < 0 || n > interpLoopBudget {
+		if m.inert(fr, s.Body) {
+			return
+		}
+		m.problem("range over unknown value %s", types.ExprString(s.X))
+		fr.done = true
+		return
+	}
+	for i := 0; i < n; i++ {
+		if s.Key != nil {
+			m.assign(fr, s.Key, val{k: vInt, i: int64(i)}, s)
+		}
+		if s.Value != nil {
+			v := val{}
+			if i < len(elems) {
+				v = elems[i]
+			}
+			m.assign(fr, s.Value, v, s)
+		}
+		m.block(fr, s.Body.List)
+		if fr.loopControl(label) {
+			return
+		}
 	}
 }
 
@@ -322,8 +486,45 @@ func (m *Machine) zero(t types.Type) val {
 		}
 	case *types.Signature, *types.Pointer, *types.Slice, *types.Map, *types.Chan, *types.Interface:
 		return val{k: vNil}
+	case *types.Array:
+		if u.Len() >= 0 && u.Len() <= 4096 {
+			out := val{k: vArr, arr: make([]val, u.Len())}
+			for i := range out.arr {
+				out.arr[i] = m.zero(u.Elem())
+			}
+			return out
+		}
+	case *types.Struct:
+		if u.NumFields() <= 32 {
+			out := val{k: vStruct, fld: map[string]val{}}
+			for i := 0; i < u.NumFields(); i++ {
+				out.fld[u.Field(i).Name()] = m.zero(u.Field(i).Type())
+			}
+			return out
+		}
 	}
 	return val{}
+}
+
+// copyVal: arrays and structs have value semantics
+func copyVal(v val) val {
+	switch v.k {
+	case vArr:
+		out := v
+		out.arr = make([]val, len(v.arr))
+		for i, e := range v.arr {
+			out.arr[i] = copyVal(e)
+		}
+		return out
+	case vStruct:
+		out := v
+		out.fld = make(map[string]val, len(v.fld))
+		for k, e := range v.fld {
+			out.fld[k] = copyVal(e)
+		}
+		return out
+	}
+	return v
 }
 
 func valEq(a, b val) bool {
@@ -367,14 +568,46 @@ func (m *Machine) isObjExpr(fr *frame, e ast.Expr) bool {
 
 func (m *Machine) assign(fr *frame, lhs ast.Expr, v val, at ast.Node) {
 	switch l := lhs.(type) {
+	case *ast.ParenExpr:
+		m.assign(fr, l.X, v, at)
+		return
 	case *ast.Ident:
 		if l.Name == "_" {
 			return
 		}
 		if o := m.info.ObjectOf(l); o != nil {
+			if _, isArr := o.Type().Underlying().(*types.Array); isArr || v.k == vStruct {
+				v = copyVal(v)
+			}
 			fr.env[o] = v
 		}
 		return
+	case *ast.IndexExpr:
+		// element of a local table: t[i] = v
+		if id, ok := unparen(l.X).(*ast.Ident); ok {
+			if o := m.info.ObjectOf(id); o != nil {
+				if t, ok := fr.env[o]; ok {
+					ix := m.expr(fr, l.Index)
+					if t.k == vArr && ix.k == vInt && ix.i >= 0 && int(ix.i) < len(t.arr) {
+						t.arr[ix.i] = v
+						return
+					}
+					// the table is no longer known
+					fr.env[o] = val{}
+					return
+				}
+			}
+		}
+	case *ast.SelectorExpr:
+		// field of a local struct value: row.f = v
+		if id, ok := unparen(l.X).(*ast.Ident); ok {
+			if o := m.info.ObjectOf(id); o != nil {
+				if t, ok := fr.env[o]; ok && t.k == vStruct {
+					t.fld[l.Sel.Name] = v
+					return
+				}
+			}
+		}
 	}
 	if f, ok := m.fieldOfObj(fr, lhs); ok {
 		if m.tracked(f) {
@@ -472,11 +705,27 @@ func (m *Machine) expr(fr *frame, e ast.Expr) val {
 		if fn, ok := o.(*types.Func); ok {
 			return val{k: vFunc, fn: fn}
 		}
+		if gv, ok := o.(*types.Var); ok {
+			if v, ok := m.globalValue(gv); ok {
+				return v
+			}
+		}
 		return val{}
 	case *ast.SelectorExpr:
 		if m.resolve != nil {
 			if v, ok := m.resolve(e); ok {
 				return v
+			}
+		}
+		// field of a known struct value (row of a constant table)
+		if s, ok := m.info.Selections[e]; ok && s.Kind() == types.FieldVal && len(s.Index()) == 1 {
+			if _, isObj := m.fieldOfObj(fr, e); !isObj {
+				if x := m.structOperand(fr, e.X); x.k == vStruct {
+					if v, ok := x.fld[e.Sel.Name]; ok {
+						return v
+					}
+					return val{}
+				}
 			}
 		}
 		if f, ok := m.fieldOfObj(fr, e); ok {
@@ -532,6 +781,10 @@ func (m *Machine) expr(fr *frame, e ast.Expr) val {
 			eq := valEq(x, y)
 			if (x.k == vFunc && y.k == vNil) || (x.k == vNil && y.k == vFunc) {
 				eq = false
+			} else if (x.k == vLit && y.k == vNil) || (x.k == vNil && y.k == vLit) {
+				eq = false
+			} else if x.k >= vArr || y.k >= vArr {
+				return val{} // tables, rows and closures are not compared here
 			}
 			if e.Op == token.NEQ {
 				eq = !eq
@@ -562,14 +815,231 @@ func (m *Machine) expr(fr *frame, e ast.Expr) val {
 	case *ast.CallExpr:
 		return m.call(fr, e)
 	case *ast.FuncLit:
-		return val{}
+		return val{k: vLit, lit: e, env: fr.env}
 	case *ast.IndexExpr:
 		if v, _, ok := m.tableLookup(fr, e); ok {
 			return v
 		}
+		if tv, ok := m.info.Types[e.X]; ok && !tv.IsType() {
+			if _, isMap := tv.Type.Underlying().(*types.Map); !isMap {
+				if x := m.structOperand(fr, e.X); x.k == vArr {
+					if ix := m.expr(fr, e.Index); ix.k == vInt && ix.i >= 0 && int(ix.i) < len(x.arr) {
+						return x.arr[ix.i]
+					}
+				}
+			}
+		}
 		return val{}
+	case *ast.CompositeLit:
+		return m.compositeLit(fr, e)
 	}
 	return val{}
+}
+
+// structOperand evaluates the operand of a selector/index expression only where that cannot have effects
+// worth recording twice: identifiers, nested selectors/indexes and parenthesised forms of them.
+func (m *Machine) structOperand(fr *frame, e ast.Expr) val {
+	switch t := unparen(e).(type) {
+	case *ast.Ident:
+		return m.expr(fr, t)
+	case *ast.SelectorExpr, *ast.IndexExpr:
+		if t, ok := m.info.Types[t.(ast.Expr)]; ok && t.IsType() {
+			return val{}
+		}
+		return m.expr(fr, t.(ast.Expr))
+	case *ast.StarExpr:
+		return m.structOperand(fr, t.X)
+	case *ast.CompositeLit:
+		return m.expr(fr, t)
+	}
+	return val{}
+}
+
+// compositeLit: array/slice literals with constant keys and struct literals become table values; anything
+// else is unknown
+func (m *Machine) compositeLit(fr *frame, cl *ast.CompositeLit) val {
+	t := m.info.TypeOf(cl)
+	if t == nil {
+		return val{}
+	}
+	switch u := t.Underlying().(type) {
+	case *types.Array, *types.Slice:
+		var elem types.Type
+		n := -1
+		if a, ok := u.(*types.Array); ok {
+			elem, n = a.Elem(), int(a.Len())
+		} else {
+			elem = u.(*types.Slice).Elem()
+		}
+		if n > 4096 || len(cl.Elts) > 4096 {
+			return val{}
+		}
+		var arr []val
+		pos := 0
+		for _, el := range cl.Elts {
+			value := el
+			if kv, ok := el.(*ast.KeyValueExpr); ok {
+				k := m.expr(fr, kv.Key)
+				if k.k != vInt || k.i < 0 || k.i > 4096 {
+					return val{}
+				}
+				pos, value = int(k.i), kv.Value
+			}
+			for len(arr) <= pos {
+				arr = append(arr, m.zero(elem))
+			}
+			if inner, ok := value.(*ast.CompositeLit); ok && inner.Type == nil {
+				arr[pos] = m.compositeLit(fr, inner)
+			} else {
+				arr[pos] = copyVal(m.expr(fr, value))
+			}
+			pos++
+		}
+		for n >= 0 && len(arr) < n {
+			arr = append(arr, m.zero(elem))
+		}
+		return val{k: vArr, arr: arr}
+	case *types.Struct:
+		if u.NumFields() > 32 {
+			return val{}
+		}
+		out := m.zero(t)
+		if out.k != vStruct {
+			return val{}
+		}
+		for i, el := range cl.Elts {
+			if kv, ok := el.(*ast.KeyValueExpr); ok {
+				id, ok := kv.Key.(*ast.Ident)
+				if !ok {
+					return val{}
+				}
+				out.fld[id.Name] = copyVal(m.expr(fr, kv.Value))
+			} else if i < u.NumFields() {
+				out.fld[u.Field(i).Name()] = copyVal(m.expr(fr, el))
+			}
+		}
+		return out
+	}
+	return val{}
+}
+
+// interpGlobals caches the values of package-level variables that are initialised once and only ever read
+// (see readOnlyInit); a nil entry means "not such a variable / not evaluable".
+var interpGlobals = map[*types.Var]*val{}
+
+// globalValue: the value of a package-level table variable that is never written after its initialisation,
+// obtained by interpreting the initialiser (a literal, or a function literal called on the spot that fills
+// the table in a loop). Only array, slice and struct values qualify: scalars that matter are constants.
+func (m *Machine) globalValue(obj *types.Var) (val, bool) {
+	if m.prog == nil || obj.Pkg() == nil || obj.Parent() != obj.Pkg().Scope() {
+		return val{}, false
+	}
+	if p, ok := interpGlobals[obj]; ok {
+		if p == nil {
+			return val{}, false
+		}
+		return *p, true
+	}
+	interpGlobals[obj] = nil
+	init, info := readOnlyInit(m.prog, obj)
+	if init == nil {
+		return val{}, false
+	}
+	sub := &Machine{info: info, prog: m.prog, fields: map[string]val{}, tracked: func(*types.Var) bool { return false },
+		funcDecl: m.funcDecl, depth: m.depth}
+	fr := &frame{env: map[types.Object]val{}}
+	v := sub.expr(fr, init)
+	if len(sub.problems) > 0 || len(sub.actions) > 0 || (v.k != vArr && v.k != vStruct) {
+		return val{}, false
+	}
+	interpGlobals[obj] = &v
+	return v, true
+}
+
+// readOnlyInit returns the initialiser expression of a package-level variable provided the variable is never
+// assigned, never has an element or field stored, is never passed to a function other than len/cap and
+// never has its address taken anywhere in its package. nil otherwise.
+func readOnlyInit(p *Program, obj *types.Var) (ast.Expr, *types.Info) {
+	for _, pk := range p.Pkgs {
+		if pk.Types != obj.Pkg() {
+			continue
+		}
+		var init ast.Expr
+		written := false
+		parents := p.Parents(pk)
+		for _, f := range pk.Syntax {
+			ast.Inspect(f, func(n ast.Node) bool {
+				switch t := n.(type) {
+				case *ast.ValueSpec:
+					for i, nm := range t.Names {
+						if pk.TypesInfo.Defs[nm] == obj && len(t.Values) == len(t.Names) {
+							init = t.Values[i]
+						}
+					}
+				case *ast.Ident:
+					if pk.TypesInfo.Uses[t] != obj {
+						return true
+					}
+					// climb through the access path: T[k], T[k].f, (T)
+					var child ast.Node = t
+					par := parents[child]
+					for {
+						switch pt := par.(type) {
+						case *ast.ParenExpr:
+							child, par = pt, parents[pt]
+							continue
+						case *ast.IndexExpr:
+							if pt.X == child {
+								child, par = pt, parents[pt]
+								continue
+							}
+						case *ast.SelectorExpr:
+							if pt.X == child {
+								if s, ok := pk.TypesInfo.Selections[pt]; !ok || s.Kind() != types.FieldVal {
+									written = true // method call on the table: may mutate
+								}
+								child, par = pt, parents[pt]
+								continue
+							}
+						}
+						break
+					}
+					switch pt := par.(type) {
+					case *ast.AssignStmt:
+						for _, l := range pt.Lhs {
+							if l == child {
+								written = true
+							}
+						}
+					case *ast.IncDecStmt:
+						written = true
+					case *ast.UnaryExpr:
+						if pt.Op == token.AND {
+							written = true
+						}
+					case *ast.RangeStmt:
+						if pt.X != child {
+							written = true
+						}
+					case *ast.CallExpr:
+						if child == t {
+							if id, ok := pt.Fun.(*ast.Ident); !ok || (id.Name != "len" && id.Name != "cap") {
+								written = true // the whole table passed to a function (may be mutated there)
+							}
+						}
+					case *ast.SliceExpr:
+						written = true
+					}
+				}
+				return true
+			})
+		}
+		if written || init == nil {
+			return nil, nil
+		}
+		return init, pk.TypesInfo
+	}
+	return nil, nil
 }
 
 // tableLookup evaluates T[k] where T is a package-level variable that is only ever initialised (never
@@ -643,12 +1113,25 @@ func (m *Machine) call(fr *frame, call *ast.CallExpr) val {
 	for i, a := range call.Args {
 		args[i] = m.expr(fr, a)
 	}
+	// a function literal called on the spot, or a closure held in a local variable
+	switch f := unparen(call.Fun).(type) {
+	case *ast.FuncLit:
+		return m.callLit(val{k: vLit, lit: f, env: fr.env}, args)
+	case *ast.Ident:
+		if o := m.info.ObjectOf(f); o != nil {
+			if v, ok := fr.env[o]; ok && v.k == vLit {
+				return m.callLit(v, args)
+			}
+		}
+	}
 	// dynamic call through a tracked func-typed field: p.exit(), p.state(r, p)
 	if f, ok := m.fieldOfObj(fr, call.Fun); ok && m.tracked(f) {
 		target := m.fields[f.Name()]
 		switch target.k {
 		case vFunc:
 			return m.invoke(fr, target.fn, call, args, "via:"+f.Name())
+		case vLit:
+			return m.callLit(target, args)
 		case vNil:
 			m.act("NILCALL:%s", f.Name())
 			m.problem("call of nil function field %s", f.Name())
@@ -668,6 +1151,42 @@ func (m *Machine) call(fr *frame, call *ast.CallExpr) val {
 		return val{}
 	}
 	return m.invoke(fr, fn, call, args, "")
+}
+
+// callLit runs a function literal in the environment it closes over (its own parameters and locals are
+// distinct objects, so sharing the map is sound for non-recursive closures).
+func (m *Machine) callLit(f val, args []val) val {
+	m.depth++
+	defer func() { m.depth-- }()
+	if m.depth > 8 {
+		m.problem("call depth exceeded in a function literal")
+		return val{}
+	}
+	fr := &frame{env: f.env}
+	i := 0
+	for _, fl := range f.lit.Type.Params.List {
+		for _, n := range fl.Names {
+			if i < len(args) {
+				fr.env[m.info.Defs[n]] = args[i]
+			}
+			i++
+		}
+	}
+	if f.lit.Type.Results != nil {
+		for _, fl := range f.lit.Type.Results.List {
+			for _, n := range fl.Names {
+				fr.env[m.info.Defs[n]] = m.zero(m.info.Defs[n].Type())
+			}
+		}
+	}
+	m.block(fr, f.lit.Body.List)
+	for j := len(fr.defers) - 1; j >= 0; j-- {
+		fr.defers[j]()
+	}
+	if len(fr.ret) == 1 {
+		return fr.ret[0]
+	}
+	return val{}
 }
 
 func (m *Machine) invoke(fr *frame, fn *types.Func, call *ast.CallExpr, args []val, how string) val {
